@@ -146,6 +146,28 @@ def check_traversal(ctx, rule, tu, info):
         from_head = [w for w in ws if path(f, w['rhs']) == ('this', '.head')]
         advance = [w for w in ws if path(f, w['rhs']) == ('v:%s#%d' % (cname, cid), '*', '.next')]
         other = [w for w in ws if w not in from_head and w not in advance]
+        # the two cursor moves may sit in small private helpers that receive the cursor by reference (doMoveToHead(node),
+        # doMoveToNext(node)): what the helper assigns to its parameter is assigned to the cursor at the call
+        for n in f.calls():
+            args = f.call_args(n)
+            for g in f.callee_fns(n):
+                if g.kind == 'lambda' or g.id == f.id:
+                    continue
+                for prm, a in zip(g.params, args):
+                    if path(f, a, resolve_refs=False) != ('v:%s#%d' % (cname, cid),) or prm.get('pass') != 'lref':
+                        continue
+                    proot = 'v:%s#%d' % (prm.get('name'), prm['id'])
+                    for w in info.writes(g):
+                        if w['path'] != (proot,) or w['how'] != 'assign':
+                            continue
+                        rp = path(g, w['rhs'])
+                        pseudo = {'pos': f.pos(n), 'node': n, 'rhs': None, 'how': 'assign', 'path': ('v:%s#%d' % (cname, cid),)}
+                        if rp == ('this', '.head'):
+                            from_head.append(pseudo)
+                        elif rp == (proot, '*', '.next'):
+                            advance.append(pseudo)
+                        else:
+                            other.append(pseudo)
         ctx.ob(rule, f, 'the cursor starts at head (read once, before the loop)',
                len(from_head) == 1 and not f.block_reaches(from_head[0]['pos'][0], from_head[0]['pos'][0]),
                detail='%d assignments from head' % len(from_head))
@@ -212,6 +234,29 @@ def check_traversal(ctx, rule, tu, info):
                     role = 'false'
                 if role and edge_dominates(f, bid, role, ipos):
                     gen_ok = True
+            if not (live_ok and gen_ok):
+                # the same two facts established another way (e.g. a guard `if(removed || newer) continue;`): whatever is known on the
+                # edges that dominate the visit has to imply "not removed" and "generation <= captured"
+                known = ('const', True)
+                for bid, blk in f.blocks.items():
+                    c = blk.get('cond')
+                    if not c or len(blk['succ']) != 2:
+                        continue
+                    try:
+                        fm = F.boolexpr(f, c, {}, True)
+                    except F.Unsupported:
+                        continue
+                    if edge_dominates(f, bid, 'true', ipos):
+                        known = ('and', known, fm)
+                    elif edge_dominates(f, bid, 'false', ipos):
+                        known = ('and', known, ('not', fm))
+                ats = F.atoms(known)
+                rem = [a for a in ats if 'removedCounter' in a and '%s.counter' % cname in a and '==' in a]
+                newer = '%s < %s.counter' % (gname, cname)
+                if not live_ok and len(rem) == 1:
+                    live_ok = F.equivalent(('or', ('not', known), ('not', ('atom', rem[0]))), ('const', True))[0]
+                if not gen_ok and newer in ats:
+                    gen_ok = F.equivalent(('or', ('not', known), ('not', ('atom', newer))), ('const', True))[0]
             ctx.ob(rule, f, 'a callback is visited only if it is not removed', live_ok,
                    detail='the invocation at %s is not dominated by `%s->counter != removedCounter`' % (f.nloc(inv), cname))
             ctx.ob(rule, f, 'a callback is visited only if its generation is <= the captured one (non-strict)', gen_ok,
